@@ -17,7 +17,8 @@ EXPLANATION = (
     " (f) Every retain on the shared rerun queue answers true for all commands of other kinds (a purge of one search cannot drop the Resolve follow-ups). (g) Every DnsCache function that removes records from the vectors of a map also drops the entries that became empty, so `get_addr(host).is_none()` / `get_srv(..)` mean 'missing'."
     " (h) ServiceEvent sends are lossless."
     " (i) For a new PTR the instance recorded as changed is the PTR's alias; the A/AAAA follow-up is asked for DnsSrv::host() of the cached SRV, the ANY follow-up for the instance."
-    " (j) The open-browse test of the follow-up reaches the instance through the cached PTR records (subtype browses). (k) ServiceResolved is decided per (browsed type, instance): no per-pass memo stands in front of the send.")
+    " (j) The open-browse test of the follow-up reaches the instance through the cached PTR records (subtype browses). (k) ServiceResolved is decided per (browsed type, instance): no per-pass memo stands in front of the send."
+    " (l) handle_read decodes every datagram it does not drop for a listed reason and dispatches every message by its QR bit; (m) the tail of handle_response always reaches resolve_updated_instances; (n) whoever purges Resolve reruns also edits pending_resolves; (o) a function that compares its parameter exactly with DnsSrv::host() never receives a lower-cased name.")
 UNDECIDED = ["'no later than the daemon's next scheduling step' (timing)", "behaviour under loss, duplication and reordering of packets",
              "escaping of instance names on the way in (value-level)", "records arriving in packets that are 'not for us' (is_for_us heuristics, value-level)"]
 
@@ -227,6 +228,8 @@ def run(ctx, P):
     r4.resolved_event_per_listing(ctx, P, "C04k")
     r4.every_packet_dispatched(ctx, P, "C04l")
     r4.response_tail_always_runs(ctx, P, "C04m", want=("resolve",))
+    r4.resolve_purge_clears_pending(ctx, P, "C04n")
+    r4.exact_host_compare_gets_exact_names(ctx, P, "C04o")
     clause_e(ctx, P)
     clause_a(ctx, P)
     clause_b(ctx, P)
